@@ -1,6 +1,6 @@
 from functools import partial
 
-from . import p_calendar, p_domains, p_history, p_hybrid, p_io, p_numeric, p_polygon, p_rowwise, p_search
+from . import p_calendar, p_domains, p_equiv, p_history, p_hybrid, p_io, p_numeric, p_polygon, p_rowwise, p_search
 
 REGISTRY = {
     "C01": partial(p_search.run, "C01"),
@@ -16,6 +16,7 @@ REGISTRY = {
     "C11": p_numeric.run_c11,
     "C13": p_history.run,
     "C14": p_rowwise.run,
+    "C15": p_equiv.run,
     "C16": p_polygon.run_c16,
     "C17": p_io.run_c17,
     "C19": p_calendar.run_c19,
